@@ -30,6 +30,10 @@ pub struct Built {
     pub n: usize,
     /// user edge calls the builder accepted, in call order (later kind wins)
     pub accepted: Vec<(usize, usize, EdgeKind)>,
+    /// edges of rejected batch calls (may or may not be in the built graph)
+    pub maybe: Vec<(usize, usize)>,
+    /// accepted edges restated (possibly with another kind) inside a rejected batch
+    pub kind_unsure: Vec<(usize, usize)>,
     pub rejected: usize,
     /// all edges of the built graph: (from, to, kind)
     pub edges: Vec<(usize, usize, BEdge)>,
@@ -84,25 +88,63 @@ pub fn build_graph(gs: &GraphSpec) -> Result<(G, Built), BuildPanic> {
             n: gs.fns.len(),
             ..Default::default()
         };
-        for c in &gs.calls {
+        let accept = |built: &mut Built, c: &crate::spec::EdgeCall| {
+            if let Some(e) = built.accepted.iter_mut().find(|e| e.0 == c.from && e.1 == c.to) {
+                e.2 = c.kind;
+            } else {
+                built.accepted.push((c.from, c.to, c.kind));
+            }
+        };
+        let mut i = 0;
+        while i < gs.calls.len() {
+            let c = &gs.calls[i];
+            // a batch: consecutive calls with the same batch id and kind (2 or 3 of them)
+            let mut j = i + 1;
+            if c.batch != 0 {
+                while j < gs.calls.len() && j - i < 3 && gs.calls[j].batch == c.batch && gs.calls[j].kind == c.kind {
+                    j += 1;
+                }
+            }
+            if j - i >= 2 {
+                let group = &gs.calls[i..j];
+                let pair = |k: usize| (ids[group[k].from], ids[group[k].to]);
+                let ok = match (group.len(), c.kind) {
+                    (2, EdgeKind::Logic) => b.add_logic_edges([pair(0), pair(1)]).is_ok(),
+                    (2, EdgeKind::Contains) => b.add_contains_edges([pair(0), pair(1)]).is_ok(),
+                    (_, EdgeKind::Logic) => b.add_logic_edges([pair(0), pair(1), pair(2)]).is_ok(),
+                    (_, EdgeKind::Contains) => b.add_contains_edges([pair(0), pair(1), pair(2)]).is_ok(),
+                };
+                if ok {
+                    for c in group {
+                        accept(&mut built, c);
+                    }
+                } else {
+                    // a rejected batch: which of its edges were recorded before the
+                    // failing one is not something the caller relies on - they are
+                    // neither required nor forbidden in the built graph.  Edges accepted
+                    // by EARLIER calls stay required.
+                    built.rejected += 1;
+                    for c in group {
+                        if !built.accepted.iter().any(|e| e.0 == c.from && e.1 == c.to) {
+                            built.maybe.push((c.from, c.to));
+                        } else {
+                            // restated inside the rejected batch: its kind may have been updated
+                            built.kind_unsure.push((c.from, c.to));
+                        }
+                    }
+                }
+                i = j;
+                continue;
+            }
             let res = match c.kind {
                 EdgeKind::Logic => b.add_logic_edge(ids[c.from], ids[c.to]),
                 EdgeKind::Contains => b.add_contains_edge(ids[c.from], ids[c.to]),
             };
             match res {
-                Ok(_) => {
-                    if let Some(e) = built
-                        .accepted
-                        .iter_mut()
-                        .find(|e| e.0 == c.from && e.1 == c.to)
-                    {
-                        e.2 = c.kind;
-                    } else {
-                        built.accepted.push((c.from, c.to, c.kind));
-                    }
-                }
+                Ok(_) => accept(&mut built, c),
                 Err(_) => built.rejected += 1,
             }
+            i += 1;
         }
         let g = b.build();
         built.preds = vec![Vec::new(); built.n];
